@@ -3,7 +3,8 @@
 //!   oracle HASHER FIELD SEED TABLE OP...   a real hasher, with its digests recorded in TABLE so that the model replays the coin logic
 //!     OP: rs:HEX reseed(H::hash(bytes)) | d:DEG draw | di:N:DOMAIN:NONCE draw_integers | lz:NONCE check_leading_zeros
 //!         | gr:GF the prover's nonce search (first nonce in 1..=4096 with check_leading_zeros >= GF)
-//!   pow FIELD HASHER GF                    an honest proof generated with grinding factor GF verifies; its nonce + other nonces are judged
+//!   pow FIELD HASHER GF                    an honest Fibonacci proof generated with grinding factor GF: the prover's nonce is accepted by
+//!                                          verify() and every smaller nonce is refused with QuerySeedProofOfWorkVerificationFailed
 //! Oracle (independent of the model): a shadow coin written here from the documentation (counter-mode expansion of the
 //! seed, little-endian decode + `< M` per coordinate, masking, trailing zeros of the first 8 bytes), validity of every drawn
 //! element (canonical coordinates, re-parses to the same element), count and range of the integers, determinism (two fresh
@@ -20,7 +21,16 @@ use winter_math::{
     fields::{f128, f62, f64, CubeExtension, QuadExtension},
     ExtensibleField, FieldElement, StarkField,
 };
+use winter_air::{
+    proof::Proof, Air, AirContext, Assertion, AuxRandElements, ConstraintCompositionCoefficients, EvaluationFrame,
+    FieldExtension, ProofOptions, TraceInfo, TransitionConstraintDegree,
+};
+use winter_math::ToElements;
+use winter_prover::{
+    matrix::ColMatrix, DefaultConstraintEvaluator, DefaultTraceLde, Prover, StarkDomain, Trace, TracePolyTable, TraceTable,
+};
 use winter_utils::{ByteReader, ByteWriter, Deserializable, DeserializationError, Randomizable, Serializable};
+use winter_verifier::{verify, AcceptableOptions, VerifierError};
 
 pub struct P;
 
@@ -628,6 +638,169 @@ fn exec_run(t: &[&str], with_table: bool) -> Outcome {
     dispatch(hasher, field, RunJob { field, hasher, seed: &seed, ops: &ops }).unwrap_or_else(|| Outcome::ok("bad-op"))
 }
 
+
+// ------------------------------------------------------------------------------------ end-to-end proof of work
+pub struct FibAir<B: StarkField> {
+    context: AirContext<B>,
+    result: B,
+}
+
+impl<B: StarkField + ExtensibleField<2> + ExtensibleField<3> + 'static> Air for FibAir<B> {
+    type BaseField = B;
+    type PublicInputs = B;
+    type GkrProof = ();
+    type GkrVerifier = ();
+
+    fn new(trace_info: TraceInfo, pub_inputs: B, options: ProofOptions) -> Self {
+        let degrees = vec![TransitionConstraintDegree::new(1), TransitionConstraintDegree::new(1)];
+        FibAir { context: AirContext::new(trace_info, degrees, 3, options), result: pub_inputs }
+    }
+    fn context(&self) -> &AirContext<B> {
+        &self.context
+    }
+    fn evaluate_transition<E: FieldElement<BaseField = B>>(&self, frame: &EvaluationFrame<E>, _p: &[E], result: &mut [E]) {
+        let c = frame.current();
+        let n = frame.next();
+        result[0] = n[0] - (c[0] + c[1]);
+        result[1] = n[1] - (c[1] + n[0]);
+    }
+    fn get_assertions(&self) -> Vec<Assertion<B>> {
+        let last = self.trace_length() - 1;
+        vec![Assertion::single(0, 0, B::ONE), Assertion::single(1, 0, B::ONE), Assertion::single(1, last, self.result)]
+    }
+}
+
+pub struct FibProver<B: StarkField, H: ElementHasher> {
+    options: ProofOptions,
+    _p: PhantomData<(B, H)>,
+}
+
+impl<B, H> Prover for FibProver<B, H>
+where
+    B: StarkField + ExtensibleField<2> + ExtensibleField<3> + 'static,
+    H: ElementHasher<BaseField = B> + Send + Sync,
+{
+    type BaseField = B;
+    type Air = FibAir<B>;
+    type Trace = TraceTable<B>;
+    type HashFn = H;
+    type RandomCoin = DefaultRandomCoin<H>;
+    type TraceLde<E: FieldElement<BaseField = B>> = DefaultTraceLde<E, H>;
+    type ConstraintEvaluator<'a, E: FieldElement<BaseField = B>> = DefaultConstraintEvaluator<'a, FibAir<B>, E>;
+
+    fn get_pub_inputs(&self, trace: &Self::Trace) -> B {
+        trace.get(1, trace.length() - 1)
+    }
+    fn options(&self) -> &ProofOptions {
+        &self.options
+    }
+    fn new_trace_lde<E: FieldElement<BaseField = B>>(
+        &self,
+        trace_info: &TraceInfo,
+        main_trace: &ColMatrix<B>,
+        domain: &StarkDomain<B>,
+    ) -> (Self::TraceLde<E>, TracePolyTable<E>) {
+        DefaultTraceLde::new(trace_info, main_trace, domain)
+    }
+    fn new_evaluator<'a, E: FieldElement<BaseField = B>>(
+        &self,
+        air: &'a FibAir<B>,
+        aux: Option<AuxRandElements<E>>,
+        cc: ConstraintCompositionCoefficients<E>,
+    ) -> Self::ConstraintEvaluator<'a, E> {
+        DefaultConstraintEvaluator::new(air, aux, cc)
+    }
+}
+
+fn fib_proof<B, H>(options: ProofOptions, len: usize) -> (Vec<u8>, B)
+where
+    B: StarkField + ExtensibleField<2> + ExtensibleField<3> + 'static,
+    H: ElementHasher<BaseField = B> + Send + Sync,
+{
+    let mut trace = TraceTable::<B>::new(2, len);
+    trace.fill(
+        |s| {
+            s[0] = B::ONE;
+            s[1] = B::ONE;
+        },
+        |_, s| {
+            s[0] += s[1];
+            s[1] += s[0];
+        },
+    );
+    let result = trace.get(1, len - 1);
+    let prover = FibProver::<B, H> { options, _p: PhantomData };
+    let proof = prover.prove(trace).expect("proving the Fibonacci trace");
+    (proof.to_bytes(), result)
+}
+
+
+fn pow_run<B, H>(gf: u32) -> Outcome
+where
+    B: StarkField + ExtensibleField<2> + ExtensibleField<3> + 'static,
+    H: ElementHasher<BaseField = B> + Send + Sync,
+{
+    let options = ProofOptions::new(6, 4, gf, FieldExtension::None, 4, 3);
+    let (bytes, result) = fib_proof::<B, H>(options, 16);
+    let proof = Proof::from_bytes(&bytes).expect("own proof");
+    let nonce = proof.pow_nonce;
+    let acc = AcceptableOptions::MinConjecturedSecurity(0);
+    let mut o = Outcome::ok(format!("ok {}", nonce));
+    match guarded(|| verify::<FibAir<B>, H, DefaultRandomCoin<H>>(proof.clone(), result, &acc)) {
+        Ok(Ok(())) => {},
+        r => {
+            o = o.fail("pow.honest-nonce-rejected", format!("the nonce {} found by the prover's search is not accepted: {:?}", nonce, r.map(|x| x.map_err(|e| e.to_string()))));
+        },
+    }
+    if nonce == 0 {
+        o = o.fail("pow.nonce-zero", "the search starts at 1");
+    }
+    // the search returns the first nonce of 1, 2, ... whose measure reaches the grinding factor: every smaller
+    // nonce must fail the verifier's test (the predicate searched for is the predicate checked)
+    for k in 1..nonce.min(3000) {
+        let mut p2 = proof.clone();
+        p2.pow_nonce = k;
+        match guarded(|| verify::<FibAir<B>, H, DefaultRandomCoin<H>>(p2, result, &acc)) {
+            Ok(Err(VerifierError::QuerySeedProofOfWorkVerificationFailed)) => {},
+            r => {
+                o = o.fail(
+                    "pow.smaller-nonce-not-refused",
+                    format!("nonce {} < {} : {:?}", k, nonce, r.map(|x| x.map_err(|e| e.to_string()))),
+                );
+                break;
+            },
+        }
+    }
+    o
+}
+
+fn exec_pow(t: &[&str]) -> Outcome {
+    if t.len() != 3 {
+        return Outcome::ok("bad-op");
+    }
+    let Ok(gf) = t[2].parse::<u32>() else { return Outcome::ok("bad-op") };
+    if gf > 12 {
+        return Outcome::ok("bad-op");
+    }
+    type A = f64::BaseElement;
+    type B2 = f62::BaseElement;
+    type C = f128::BaseElement;
+    match (t[0], t[1]) {
+        ("f64", "b3_256") => pow_run::<A, Blake3_256<A>>(gf),
+        ("f64", "b3_192") => pow_run::<A, Blake3_192<A>>(gf),
+        ("f64", "sha3") => pow_run::<A, Sha3_256<A>>(gf),
+        ("f64", "rp64") => pow_run::<A, Rp64_256>(gf),
+        ("f64", "rpj64") => pow_run::<A, RpJive64_256>(gf),
+        ("f62", "rp62") => pow_run::<B2, Rp62_248>(gf),
+        ("f62", "b3_256") => pow_run::<B2, Blake3_256<B2>>(gf),
+        ("f128", "b3_256") => pow_run::<C, Blake3_256<C>>(gf),
+        ("f128", "sha3") => pow_run::<C, Sha3_256<C>>(gf),
+        ("f128", "b3_192") => pow_run::<C, Blake3_192<C>>(gf),
+        ("f64", "toy0") => pow_run::<A, ToyH<A, 0>>(gf),
+        _ => Outcome::ok("bad-op"),
+    }
+}
+
 // ------------------------------------------------------------------------------------ oracle table (gen side)
 struct TableJob<'a> {
     field: &'a str,
@@ -798,6 +971,12 @@ fn gen_all(rng: &mut Rng, tier: Tier, n: usize, emit: &mut dyn FnMut(String)) {
             }
         }
     }
+    // --- end to end: the nonce found by the prover's search against the verifier's test
+    for (f, h) in [("f64", "b3_256"), ("f64", "b3_192"), ("f64", "sha3"), ("f64", "rp64"), ("f64", "rpj64"), ("f62", "rp62"), ("f62", "b3_256"), ("f128", "b3_256"), ("f128", "sha3"), ("f128", "b3_192"), ("f64", "toy0")] {
+        for gf in if thorough { vec![0u32, 1, 2, 3, 4, 5, 6, 7, 8, 9, 10] } else { vec![0u32, 1, 3, 6, 8] } {
+            emit(format!("pow {} {} {}", f, h, gf));
+        }
+    }
     // --- malformed stream
     for l in ["", "run", "run toy0", "run toy0 f64", "run toy0 f65 1 d:1", "run toy0 f64 1 d:4", "run toy0 f64 x d:1", "run toy0 f64 1 zz", "run toy0 f64 1 di:1:2", "run toy0 f64 1 rs:0", "oracle b3_256 f64 1"] {
         emit(l.to_string());
@@ -823,6 +1002,7 @@ impl Prop for P {
         match t[0] {
             "run" => exec_run(&t[1..], false),
             "oracle" => exec_run(&t[1..], true),
+            "pow" => exec_pow(&t[1..]),
             _ => Outcome::ok("bad-op"),
         }
     }
